@@ -125,6 +125,7 @@ impl<'a> CaseCtx<'a> {
             "origin": self.case.origin,
             "detail": extra,
             "grammar": self.entry.grammar,
+            "config": if cfg!(feature = "extras") { "extras" } else { "plain" },
         })
     }
     fn kind(&self) -> Kind {
